@@ -39,10 +39,13 @@ def undictify_complex_values(data: dict) -> dict:
             data[key] = value['abs'] * complex(np.cos(phase_rad), np.sin(phase_rad))
     return data
 
-def dictify_all_complex_values(data: dict) -> dict:
-    for key, value in data.items():
-        if isinstance(value, dict):
-            data[key] = dictify_all_complex_values(value)
+def dictify_all_complex_values(data):
+    if isinstance(data, complex):
+        return {'real': data.real, 'imag': data.imag}
+    if isinstance(data, dict):
+        return {key: dictify_all_complex_values(value) for key, value in data.items()}
+    if isinstance(data, list):
+        return [dictify_all_complex_values(value) for value in data]
     return data
 
 def undictify_all_complex_values(data: dict) -> dict:
